@@ -26,6 +26,7 @@ type lifeScen struct {
 	rejected   bool
 	timedOut   bool
 	gi         *model.GroupInfo
+	parkedLost bool     // a parked genuine share was not handed to the party after it registered
 	overStored bool     // an over-long signer id sits among the messages round0 stored
 	pending    []string // id hex of honest senders whose messages sit in Processor.futureMessages[hash]
 	npending   int
@@ -88,8 +89,10 @@ func (s *scen) afterAccept() {
 			}
 			time.Sleep(100 * time.Microsecond)
 		}
-		if !s.round.WaitSenders(l.pending, 8*time.Second) {
-			panic("dispatched honest messages did not reach the share set")
+		if !s.round.WaitSenders(l.pending, 2*time.Second) {
+			// a genuine share that was parked under the block hash never reached the round: the state
+			// line will differ from the model's; the searcher names it
+			l.parkedLost = true
 		}
 	}
 	l.pending, l.npending = nil, 0
@@ -215,7 +218,12 @@ func (r *runner) lifeLines(s *scen, lines []string, stopAtTimeout bool) []string
 func (r *runner) runLife(sc script, _ interface{}) {
 	s := r.lifeSetup(sc)
 	r.lifeLines(s, sc.lines[1:], false)
-	if r.search && s.lifeStage() == "signing" && !s.life.rejected && !s.life.timedOut {
+	if r.search && s.life.parkedLost {
+		r.addViol(s, "parked-honest-share-not-delivered",
+			"a genuine share filed under the block hash before the party was registered there was not handed to the party afterwards (dropped or withheld while parked)",
+			map[string]interface{}{"state": r.lifeObserve(s, s.hash, "end")})
+	}
+	if r.search && (s.lifeStage() == "signing" || (s.round.HasParty() && s.reaped)) && !s.life.rejected && !s.life.timedOut {
 		r.checkFinal(s)
 	}
 	end := s.ending
@@ -279,8 +287,12 @@ func genLife(r *hx.Rng, idx int) script {
 	next := 0
 	take := func() int { v := perm[next%n]; next++; return v }
 	budget := k - 1                   // shares that may be counted before the live traffic starts
-	if r.Chance(1, 5) && budget > 0 { // filed under the hash before any party exists
-		lines = append(lines, "m "+honest(take()))
+	if r.Chance(1, 4) && budget > 0 { // filed under the hash before any party exists
+		v := take()
+		if r.Chance(1, 2) { // somebody else names v first
+			lines = append(lines, "m "+forged(r, v, n, ""))
+		}
+		lines = append(lines, "m "+honest(v))
 		budget--
 	}
 	switch r.Intn(10) {
@@ -303,6 +315,9 @@ func genLife(r *hx.Rng, idx int) script {
 					lines = append(lines, fmt.Sprintf("m signer=%d filed=K sig=junk", i))
 				default:
 					if budget > 0 {
+						if r.Chance(1, 2) {
+							lines = append(lines, "m "+forged(r, i, n, " filed=K"))
+						}
 						lines = append(lines, fmt.Sprintf("m signer=%d filed=K", i))
 						budget--
 						if r.Chance(1, 3) { // the same bytes again: round0 refuses the known id
@@ -313,7 +328,11 @@ func genLife(r *hx.Rng, idx int) script {
 			}
 		}
 		for c := r.Intn(3); c > 0 && budget > 0; c-- {
-			lines = append(lines, "m "+honest(take()))
+			v := take()
+			if r.Chance(1, 2) {
+				lines = append(lines, "m "+forged(r, v, n, ""))
+			}
+			lines = append(lines, "m "+honest(v))
 			budget--
 		}
 		if r.Chance(1, 6) {
